@@ -47,9 +47,7 @@ func (r *flowRun) flowMain(extra func(net *simnet.Net, eps []*endpoint)) {
 	r.bg = async.NewContext()
 	opts := p.Opt.options()
 
-	srv := mpx.NewServer(simAddr, mpx.HandleFunc(r.handler), r.log, opts)
-	srv.Start()
-	waitFlag(srv.Listening())
+	r.startServer()
 
 	var eps []*endpoint
 	for i, cp := range p.Clients {
@@ -92,10 +90,34 @@ func (r *flowRun) flowMain(extra func(net *simnet.Net, eps []*endpoint)) {
 		return true
 	})
 	simrt.Logf("main: all channels done")
+	if r.beforePost != nil {
+		r.beforePost(net)
+	}
+	if !r.srvUp {
+		r.startServer()
+	}
 	if r.post != nil {
 		r.post(net, eps)
 	}
-	r.teardown(srv, eps)
+	r.teardown(r.srv, eps)
+}
+
+func (r *flowRun) startServer() {
+	r.srv = mpx.NewServer(simAddr, mpx.HandleFunc(r.handler), r.log, r.plan.Opt.options())
+	r.srv.Start()
+	waitFlag(r.srv.Listening())
+	r.srvUp = true
+}
+
+// crashServer stops the server and resets its connections (a process that went away).
+func (r *flowRun) crashServer(net *simnet.Net) {
+	simrt.Recv(0, r.srv.Stop())
+	for _, pr := range net.Pairs() {
+		if !pr.IsReset && !pr.S.Closed() {
+			pr.Reset("server-crash")
+		}
+	}
+	r.srvUp = false
 }
 
 func (d *dirState) sendTriedAny() bool {
